@@ -613,6 +613,21 @@ impl<'w> Ctx<'w> {
                 }
             }
         }
+        // `buf.align_to::<T>().1.len()` on a buffer allocated with T's alignment: how many whole T fit
+        if let Some(pos) = txt.find(".align_to::<") {
+            if let Some(tname) = txt[pos + ".align_to::<".len()..].strip_suffix(">().1.len()") {
+                if let (Ok(r), Ok(t)) = (syn::parse_str::<Expr>(&txt[..pos]), syn::parse_str::<Type>(tname)) {
+                    let sz = self.size_of(&t)?;
+                    let r = self.expr(&r)?;
+                    let len = match self.resolve(&r.ty) {
+                        Ty::Named(n) => match self.w.slice_len.get(&n) { Some(f) => format!("{}.{}", r.s, f), None => return Err("align_to on a struct whose Deref was not checked".into()) },
+                        Ty::Bytes => format!("{}.length", r.s),
+                        o => return Err(format!("align_to on {:?}", o)),
+                    };
+                    return Ok(E { s: format!("({} / {})", len, sz), ty: Ty::U(64), eff: r.eff });
+                }
+            }
+        }
         // `bytes.chunks_exact(N).filter_map(|s| TryInto::try_into(s).ok()).map(u64::from_be_bytes)`
         if let Some(pos) = txt.find(".chunks_exact(") {
             if txt.ends_with(").filter_map(|s|TryInto::try_into(s).ok()).map(u64::from_be_bytes)") {
@@ -797,6 +812,11 @@ impl<'w> Ctx<'w> {
         let recv = self.expr(&m.receiver)?;
         let rt = self.resolve(&recv.ty);
         let eff = recv.eff;
+        if let (Ty::Named(n), "len") = (&rt, name.as_str()) {
+            if let Some(f) = self.w.slice_len.get(n) {
+                return Ok(E { s: format!("{}.{}", recv.s, f), ty: Ty::U(64), eff });
+            }
+        }
         // `&self` methods of translated structs on a receiver that is not a place (`x.borrow().f(..)`)
         if let Ty::Named(sn) = &rt {
             if let Some(sig) = self.w.fns.get(&format!("{}.{}", sn, name)).cloned() {
